@@ -25,6 +25,8 @@ TruncEntries == {"type1", "readcmap"}      \* the property speaks about font and
 RunOK(r) ==
     /\ r.outcome # "panic"
     /\ (r.kind \in {"readfault", "writefault", "shortwrite"} /\ r.delivered) => r.outcome = "error"
-    /\ (r.kind \in {"readfault", "writefault", "shortwrite"} /\ ~r.delivered) => (r.outcome = "ok" /\ r.equal)
+    \* a fault that was never delivered changes nothing: the result is the unharmed one (a result for an
+    \* input the reader accepts; for the few inputs it rejects, the very same error)
+    /\ (r.kind \in {"readfault", "writefault", "shortwrite"} /\ ~r.delivered) => (r.equal /\ (r.baseok => r.outcome = "ok"))
     /\ (r.kind = "truncate" /\ r.entry \in TruncEntries) => (r.outcome = "error" \/ (r.outcome = "ok" /\ r.equal))
 =============================================================================
